@@ -28,7 +28,7 @@ type gctx struct {
 	budget   int
 }
 
-var gpaths = []string{"/", "/a", "/a*", "/a/*", "/api/*", "/api/v1/*", "/static/*", "*.php", "/x/y/z", "/ab", "/ab*", "/*"}
+var gpaths = []string{"/", "/a", "/a*", "/a/*", "/api/*", "/api/v1/*", "/static/*", "/p/*.php", "/x/y/z", "/ab", "/ab*", "/*"}
 var ghosts = []string{":8080", "a.test", "a.test, b.test", "http://c.test", "*.d.test", "localhost:8443", ":443", "e.test:80", "https://f.test", "http://", "g.test:8080, :8081", "a.test/path*", "127.0.0.1", "[::1]:9090", "{$C16_ENV}.test", "h.test:{$C16_UNSET:8085}"}
 var gupstreams = []string{"127.0.0.1:9000", "localhost:9001", "h2c://127.0.0.1:9002", "https://up.test", "unix//run/x.sock", "srv+http://svc.test", "up.test:80 up2.test:80", "http://10.0.0.1:8080", "{env.UP}", "127.0.0.1:9000-9002"}
 
